@@ -241,5 +241,5 @@ func checkHTTP(c HTTPCase, o *vf.Obs) error {
 func TestHTTPGun(t *testing.T) {
 	pand.Init()
 	r := vf.Start(t, "C19")
-	vf.Check(r, genHTTP, checkHTTP)
+	vf.Check(r, genHTTP, vf.LoadTolerant(25*time.Millisecond, checkHTTP))
 }
